@@ -1,6 +1,7 @@
-(** extraction of the C16 model: documented panic table, as-is panic mechanisms, Farey walk *)
+(** extraction of the C16 model: documented panic table, as-is panic mechanisms, Farey walk, index-level text parsers *)
 Require Import FastZ.
-From Dashu Require Import Base.Prelude Cross.PanicSpec Cross.PanicAsis.
+From Dashu Require Import Base.Prelude Cross.PanicSpec Cross.PanicAsis Cross.Utf8 Cross.ParseIdx.
 Extraction "model.ml"
   documented may exp_band accepts asis known asis_predicts farey_asis auto_prec_zero pow_related
-  with_base_asis preason_beq outcome_beq ndig opdiv_long.
+  with_base_asis preason_beq outcome_beq ndig opdiv_long
+  utf8_from float_parse_code ratio_radix_code ratio_prefix_code int_radix_code int_default_code.
